@@ -34,7 +34,8 @@ From Soy Require Import Model.Bytes Model.Num Model.Values Model.Outcome Model.A
   Model.Compile Model.ExprPipeline Model.InterpJson Spec.Safety
   Proofs.SafetyPure Proofs.SafetyProofs Proofs.SafetyEntry Proofs.SafetyFuel Proofs.SafetyCompile Proofs.SafetyMono
   Proofs.SafetyDepth Proofs.SafetyBytes Proofs.SafetyUser Proofs.SafetyExt Proofs.SafetyRefine Proofs.SafetyMarker.
-From Soy Require Import Model.JsGen Proofs.SafetyJsGen.
+From Soy Require Import Model.JsGen Spec.SafetyJs Proofs.SafetyJsGen Proofs.SafetyJsFuel Proofs.SafetyJsMono.
+From Soy Require Import Model.NumJson Spec.Json Proofs.MsgIdProofs Proofs.CodecJsonNum Proofs.NumJsonProofs.
 Open Scope N_scope.
 
 (* ================================================================== *)
@@ -360,12 +361,15 @@ Proof. exact render_user_no_escape'. Qed.
 Print Assumptions C06_render_user_no_escape.
 
 (* the hooked walker satisfies EVERY walker logic of Proofs/InterpLogic.v whose pure-site condition holds
-   of the hooked calls: the other invariants of the walker (C08, C12, ...) extend to user code the same way *)
+   of the hooked calls (the wrapped function calls; the Write calls of a print; the application of one directive
+   inside evalPrint's loop, which applies each directive right after its own arguments): the other invariants of the
+   walker (C08, C12, ...) extend to user code the same way *)
 Theorem C06_walk_hook_logic :
   forall cf fhooks dir_table (Phi : forall A : Type, M A -> Prop) (pure_ok : forall A : Type, outcome A -> Prop),
     InterpLogic.walker_logic Phi pure_ok -> InterpLogic.pure_sites pure_ok ->
     (forall name h vs, fhooks name = Some h -> pure_ok _ (fh_apply h vs)) ->
     (forall mode ds v, pure_ok _ (print_writes_hook dir_table mode ds v)) ->
+    (forall ds v esc, pure_ok _ (apply_dirs_hook dir_table ds v esc)) ->
     forall fuel n, Phi _ (walk_hook cf fhooks dir_table fuel n).
 Proof. exact walk_hook_logic. Qed.
 Print Assumptions C06_walk_hook_logic.
@@ -584,19 +588,88 @@ Print Assumptions C06_range_pinned_overflow_diverges.
    sees s.errorf's own panics: the only origin of a Crash is scope.go's stack[len-1] on an empty stack, and
    the walker keeps the scope stack balanced (Hoare triple on its length through every visitor).
 
-   FULL statement (not proved, hence _partial):  forall o name body, exists f0, forall fuel, f0 <= fuel ->
-   gen_file o fuel name body is Ok or Err  -- i.e. a budget of the height of the tree (+ the longest namespace
-   for ns_decls, + the message nesting) suffices, so the Go recursion is bounded by the tree and ends.
-   Missing: the fuel-adequacy induction over Model/JsGen.v's five fuelled fixpoints.  The harness runs
-   soyjs.Write on accepted bundles (deep nests, stale message bundles, failing and panicking writers) in
-   worker subprocesses and observes {nil, error, escaped panic, fatal, hang}.
+   Second theorem (fuel adequacy): the budgets of the model are only there to make its definitions structural.
+   With a budget of the HEIGHT of the file's tree (Spec/SafetyJs.v [jw_height]: one level per node along the
+   children the walker hands to s.walk / s.block; a global counts the depth of its value, which nodeFromValue
+   turns into nested literals) [gen_file] ANSWERS: Ok (the script), Err (s.errorf) or OutOfModel (a float literal
+   outside the printer's domain, a node of a kind the Go field types exclude) -- so the Go recursion is bounded by
+   the nesting of the tree and ends.  The inner loops never run out of the budget the model gives them, on any
+   tree: MsgNode.Placeholder's queue and visitMsg's children loop under [msg_size body], visitNamespace under the
+   length of the name ([inner_budgets_suffice] for the two that are not inside the walker's recursion).
+   The harness runs soyjs.Write on accepted bundles (deep nests, stale message bundles, failing and panicking
+   writers) in worker subprocesses and observes {nil, error, escaped panic, fatal, hang}.
    Run-time panics the harness does see recovered ("index out of range" for a builtin called with too few
-   arguments: C14 finding js-write-error-function-arity) are sites Model/JsGen.v models as [Err]. *)
-Theorem C06_js_write_no_escape_partial :
+   arguments: C14 finding js-write-error-function-arity; every such case is explained in the worker by an
+   under-arity call in the file) are sites Model/JsGen.v models as [Err]. *)
+Theorem C06_js_write_no_escape :
   forall o fuel name body,
     match gen_file o fuel name body with Crash _ | Diverge => False | _ => True end.
 Proof. exact gen_file_no_crash. Qed.
-Print Assumptions C06_js_write_no_escape_partial.
+Print Assumptions C06_js_write_no_escape.
+
+Theorem C06_js_write_answers :
+  forall o fuel name body,
+    (jw_hmax body <= fuel)%nat ->
+    match gen_file o fuel name body with Ok _ | Err _ | OutOfModel => True | _ => False end.
+Proof. exact gen_file_answers. Qed.
+Print Assumptions C06_js_write_answers.
+
+Theorem C06_js_inner_budgets_suffice :
+  (forall body name, jfind_placeholder (msg_size body) body name <> OutOfFuel) /\
+  (forall name, jnf (ns_decls (S (length name)) name 0)).
+Proof. exact inner_budgets_suffice. Qed.
+Print Assumptions C06_js_inner_budgets_suffice.
+
+(* the budget is only an approximation index: an answer obtained with some budget is the answer with every larger
+   one (relation "OutOfFuel, or both agree" between two recursive calls, through every visitor:
+   Proofs/SafetyJsMono.v), so from the height of the tree on the answer does not depend on the budget *)
+Theorem C06_js_write_fuel_monotone :
+  forall o f k name body,
+    gen_file o f name body <> OutOfFuel -> gen_file o (f + k) name body = gen_file o f name body.
+Proof. exact gen_file_fuel_monotone. Qed.
+Print Assumptions C06_js_write_fuel_monotone.
+
+Theorem C06_js_write_fuel_independent :
+  forall o f1 f2 name body,
+    (jw_hmax body <= f1)%nat -> (jw_hmax body <= f2)%nat -> gen_file o f1 name body = gen_file o f2 name body.
+Proof. exact gen_file_fuel_independent. Qed.
+Print Assumptions C06_js_write_fuel_independent.
+
+(* the bound is the height, and it is tight: the example file has height 3; 3 suffices, 2 does not *)
+Example C06_ex_js_height :
+  let body := [NNamespace 0 (b "a") 0; NTemplate 0 (b "a.t") (NList 0 [NRawText 0 (b "x")]) 0 false] in
+  let o := {| o_fmt := ES5; o_msgs := None; o_order := fun l => l |} in
+  jw_hmax body = 3%nat /\
+  (exists cs, gen_file o 3 (b "f.soy") body = Ok cs) /\ gen_file o 2 (b "f.soy") body = OutOfFuel.
+Proof. vm_compute. split; [reflexivity|]. split; [eexists; reflexivity | reflexivity]. Qed.
+
+(* encoding/json's float layout (Model/NumJson.v, used by the extended model's |json): whatever the float and its
+   digits, the text consists of digits, sign, point and exponent mark; and each of the four layouts is one RFC 8259
+   number for every digit string without a leading zero.  (That the DIGITS are the shortest that read back as the
+   float is tied by correspondence only: op c06_fl_json against json.Marshal.) *)
+Theorem C06_json_float_chars :
+  forall x s, fl_to_json x = Some s -> Forall jnum_char s.
+Proof. exact fl_to_json_chars. Qed.
+Print Assumptions C06_json_float_chars.
+
+Theorem C06_json_float_layout_reads :
+  forall sign ds dp rest,
+    (sign = [] \/ sign = [45]) -> (exists d r, ds = d :: r /\ d <> 48) -> Forall is_digit_byte ds -> stop_num rest ->
+    exists v, json_number (fmt_json sign ds dp ++ rest) = Some (v, rest).
+Proof. exact fmt_json_reads. Qed.
+Print Assumptions C06_json_float_layout_reads.
+
+(* ... and the digit string of the shortest-digits search is that of a positive integer (no sign, no leading zero),
+   so the text of EVERY float json.Marshal has a text for is ONE number of RFC 8259, read completely *)
+Theorem C06_json_float_is_number :
+  forall x s rest, fl_to_json x = Some s -> stop_num rest -> exists v, json_number (s ++ rest) = Some (v, rest).
+Proof. exact fl_to_json_reads. Qed.
+Print Assumptions C06_json_float_is_number.
+
+Example C06_ex_json_float_layouts :
+  fl_to_json (FFin 1 70) = Some (b "1.1805916207174113e+21") /\ fl_to_json (FFin 5 (-1)) = Some (b "2.5") /\
+  fl_to_json (FFin 1 (-20)) = Some (b "9.5367431640625e-7") /\ fl_to_json (FFin 25 2) = Some (b "100").
+Proof. vm_compute. repeat split; reflexivity. Qed.
 
 (* non-vacuity: a file with a template (let, foreach, call) is generated *)
 Example C06_ex_js_gen :
